@@ -626,7 +626,9 @@ func (b *Built) build(e *Env, sp *Spec) (blobserver.Storage, Caps, reopenFn, pre
 			"write": map[string]any{"if": "isSchema", "then": "/rep/", "else": "/bs/"},
 			"read":  "/bs/",
 		}
-		caps := Caps{Receive: true, Remove: false, SubFetch: false}
+		// both write targets include bs: when bs is read-only (union) every receive is refused, and a
+		// schema blob that reached only the extra store is not readable (reads go to bs)
+		caps := Caps{Receive: bc.Receive, Remove: false, SubFetch: false}
 		if sp.str("remove", "yes") == "yes" {
 			conf["remove"] = "/bs/"
 			caps.Remove = bc.Remove
@@ -701,7 +703,8 @@ func (b *Built) build(e *Env, sp *Spec) (blobserver.Storage, Caps, reopenFn, pre
 				}
 			}
 		}
-		return s, Caps{Receive: true, Remove: uc.Remove, RemoveMixed: uc.RemoveMixed}, re, pre, err
+		// receives go to the upper layer only: a read-only upper layer (union) makes the overlay read-only
+		return s, Caps{Receive: uc.Receive, Remove: uc.Remove, RemoveMixed: uc.RemoveMixed}, re, pre, err
 
 	case "namespace":
 		ld := NewLoader()
@@ -770,7 +773,8 @@ func (b *Built) build(e *Env, sp *Spec) (blobserver.Storage, Caps, reopenFn, pre
 				return b.create("proxycache", ld, pcConf)
 			}
 		}
-		return s, Caps{Receive: true, Remove: oc.Remove, RemoveMixed: oc.RemoveMixed}, re, originPre, err
+		// a read-only origin (union) refuses every receive: so does the proxy
+		return s, Caps{Receive: oc.Receive, Remove: oc.Remove, RemoveMixed: oc.RemoveMixed}, re, originPre, err
 
 	case "union":
 		ld := NewLoader()
